@@ -245,7 +245,7 @@ func scenMatch(rng *rand.Rand, tr *sim.Trace, seg int, events int) {
 			id := randID(rng)
 			c := h.call(d, method, dht.QueryInput{MsgArgs: krpc.MsgArgs{Target: id, InfoHash: id}})
 			calls = append(calls, c)
-			if !h.conn.WaitOut(i+1, 5*time.Second) {
+			if !h.conn.WaitOut(i+1, 30*time.Second) {
 				fail("query %d was never written", c.k)
 			}
 		}
@@ -304,7 +304,7 @@ func scenMatch(rng *rand.Rand, tr *sim.Trace, seg int, events int) {
 				h.in(from, q)
 			}
 			replay = append(replay, [2]any{from, t})
-			if !sim.WaitQuiet(10 * time.Second) {
+			if !sim.WaitQuiet(60 * time.Second) {
 				fail("response delivery goroutines did not finish")
 			}
 			for ci, c := range calls {
@@ -312,7 +312,7 @@ func scenMatch(rng *rand.Rand, tr *sim.Trace, seg int, events int) {
 					open[ci] = false
 				} else if open[ci] && string(qs[ci].t) == string(t) && from.String() == qs[ci].dst.String() {
 					// the genuine reply for this call: it must return
-					if h.ret(c, 5*time.Second) {
+					if h.ret(c, 30*time.Second) {
 						open[ci] = false
 					}
 				}
@@ -322,7 +322,7 @@ func scenMatch(rng *rand.Rand, tr *sim.Trace, seg int, events int) {
 		for ci, c := range calls {
 			if open[ci] {
 				h.cancelCall(c)
-				if !h.ret(c, 5*time.Second) {
+				if !h.ret(c, 30*time.Second) {
 					fail("cancelled query %d did not return", c.k)
 				}
 			}
